@@ -639,7 +639,8 @@ type c09Run struct {
 	// inProc: keys whose revocation this incarnation accepted in a refresh that ran to
 	// completion while it trusted the key. Whatever the disk did, the process itself saw
 	// the revocation: it may not publish the key again before it restarts.
-	inProc map[int]string
+	inProc   map[int]string
+	incStart time.Duration // when the current incarnation started
 }
 
 func (x *c09Run) cfg(keys, revoked []int) *config.Config {
@@ -659,6 +660,31 @@ func (x *c09Run) cfg(keys, revoked []int) *config.Config {
 		c.RootKeys = append(c.RootKeys, x.sc.key(k, true).DNSKEY.String())
 	}
 	return c
+}
+
+// followForgotten: a revocation that left no durable record (read-only or failing disk, power
+// loss before the write) is gone with the process that accepted it. A configured key is then
+// legitimately trusted again by the next process, and so is what it signs from there on. The
+// model follows the implementation for exactly those keys (all keys when only is nil); a key
+// with a durable record stays in noMore and check() reports it if it is ever live again.
+func (x *c09Run) followForgotten(now time.Duration, only []int) {
+	live, _ := x.live()
+	for _, k := range live {
+		if only != nil {
+			found := false
+			for _, o := range only {
+				found = found || o == k
+			}
+			if !found {
+				continue
+			}
+		}
+		if _, durable := x.noMore[k]; !durable && x.model.keys[k].st == mRevoked {
+			x.model.keys[k].st, x.model.keys[k].since = mValid, now
+			x.tr.AddAt(now, "model follows: the revocation of key #%d left no durable record and was lost with the process", k)
+			x.res.Probes["revocation-lost-with-process"]++
+		}
+	}
 }
 
 func (x *c09Run) live() (ids []int, unknown int) {
@@ -685,6 +711,11 @@ func (x *c09Run) start(cfgKeys, cfgRevoked []int, now time.Duration) {
 	x.inProc = map[int]string{}
 	x.r = resolver.NewResolver(x.cfg(cfgKeys, cfgRevoked))
 	x.model.startIncarnation(cfgKeys, cfgRevoked, now)
+	x.incStart = now
+	if x.faulty && now > 0 {
+		x.observeDurable(now)
+		x.followForgotten(now, nil)
+	}
 	x.tr.AddAt(now, "incarnation start config=%v revoked-config=%v", cfgKeys, cfgRevoked)
 	x.tr.Shape("start")
 }
@@ -885,10 +916,18 @@ func (x *c09Run) execute() {
 					wasRevoked[k] = x.model.keys[k].st == mRevoked
 				}
 				label := x.model.refresh(sc.Pubs[sv.pub], sv.at, x.curCfg)
+				var revokedHere []int
 				for k := range x.model.keys {
 					if x.model.keys[k].st == mRevoked && !wasRevoked[k] {
 						newlyRevoked = append(newlyRevoked, k)
+						revokedHere = append(revokedHere, k)
 					}
+				}
+				if x.faulty && sv.at < x.incStart && len(revokedHere) > 0 {
+					// a refresh of the incarnation that crashed: what it accepted and did not
+					// get onto the disk is unknown to the process running now
+					x.observeDurable(time.Since(start))
+					x.followForgotten(sv.at, revokedHere)
 				}
 				if fmt.Sprint(x.model.keys) != before {
 					x.res.Nontrivial = true
